@@ -317,8 +317,10 @@ class SymInt:
         return o >> k
 
     def __mod__(self, m):
-        if isinstance(m, (SymInt, SymBool)):
-            m = concretize(m)
+        if isinstance(m, SymBool):
+            m = m._lift()
+        if isinstance(m, SymInt):
+            return _sym_divmod(self, m)[1]
         if not isinstance(m, int):
             return NotImplemented
         if m == 0:
@@ -341,11 +343,16 @@ class SymInt:
         return SymInt.make(t, w, lo, hi)
 
     def __rmod__(self, o):
-        return o % concretize(self)
+        o = SymInt.lift(o)
+        if o is None:
+            return NotImplemented
+        return _sym_divmod(o, self)[1]
 
     def __floordiv__(self, m):
-        if isinstance(m, (SymInt, SymBool)):
-            m = concretize(m)
+        if isinstance(m, SymBool):
+            m = m._lift()
+        if isinstance(m, SymInt):
+            return _sym_divmod(self, m)[0]
         if not isinstance(m, int):
             return NotImplemented
         if m == 0:
@@ -362,7 +369,10 @@ class SymInt:
         return SymInt.make(t, w, lo, hi)
 
     def __rfloordiv__(self, o):
-        return o // concretize(self)
+        o = SymInt.lift(o)
+        if o is None:
+            return NotImplemented
+        return _sym_divmod(o, self)[0]
 
     def __divmod__(self, m):
         return (self // m, self % m)
@@ -497,6 +507,24 @@ class SymInt:
 
     def __float__(self):
         raise EngineGap("float(SymInt)")
+
+
+def _sym_divmod(a, m):
+    """Python floor division / modulo with a symbolic divisor (only m == 0 forks)"""
+    if not m:
+        raise ZeroDivisionError("integer division or modulo by zero")
+    w = max(a.w, m.w) + 1
+    A, M = a.ext(w), m.ext(w)
+    q = A / M                       # bvsdiv: truncating
+    r = z3.SRem(A, M)               # sign follows the dividend
+    adj = z3.And(r != 0, (r < 0) != (M < 0))
+    q = z3.If(adj, q - 1, q)
+    r = z3.If(adj, r + M, r)
+    amax = max(abs(a.lo), abs(a.hi))
+    mmax = max(abs(m.lo), abs(m.hi))
+    qq = SymInt.make(q, w, -amax - 1, amax + 1)
+    rr = SymInt.make(r, w, min(0, m.lo + 1), max(0, m.hi - 1))
+    return qq, rr
 
 
 class SymFloatBase:
